@@ -101,7 +101,7 @@ def write_convolved(d, filter_name, names, flux, err, apertures_au=None, filtwav
 
 
 def write_sed_file(d, name, wav_micron, flux, err, apertures_au=None, unit='mJy', distance_cm=KPC_CM,
-                   wav_unit='um', ap_unit='AU', subdir=None, float32=False, filename=None, gz=False, err_unit=None, freq_unit='Hz'):
+                   wav_unit='um', ap_unit='AU', subdir=None, float32=False, filename=None, gz=False, err_unit=None, freq_unit='Hz', nu_hz=None):
     """One per-model SED file (seds/<name>_sed.fits).  wav_micron in any order;
     flux/err: (n_ap, n_wav) aligned with wav_micron as given."""
     sd = os.path.join(d, 'seds') if subdir is None else os.path.join(d, 'seds', subdir)
@@ -124,7 +124,7 @@ def write_sed_file(d, name, wav_micron, flux, err, apertures_au=None, unit='mJy'
     hdu0.header['NWAV'] = n_wav
     hdu1 = fits.BinTableHDU.from_columns([
         fits.Column(name='WAVELENGTH', format=fmt, array=wav, unit=wav_unit),
-        fits.Column(name='FREQUENCY', format=fmt, array=nu_of_wav_micron(wav), unit=freq_unit)], name='WAVELENGTHS')
+        fits.Column(name='FREQUENCY', format=fmt, array=nu_of_wav_micron(wav) if nu_hz is None else np.asarray(nu_hz, float), unit=freq_unit)], name='WAVELENGTHS')
     if apertures_au is None:
         ap = np.array([1e-30])
         apu = 'cm'
